@@ -163,8 +163,49 @@ sp_run(Params *p)
 	}
 	nng_listener l;
 	nng_dialer   d;
+	std::string durl = url;
+	if (p->i("wshdr", 0) && tr == TR_WS) {
+		url += "/" + std::string(230, 'p'); // longer than the connection's inline URI buffer
+		durl = url;
+	}
 	RETRY(nng_listen(b, url.c_str(), &l, 0), "nng_listen");
-	RETRY(nng_dial(a, url.c_str(), &d, NNG_FLAG_NONBLOCK), "nng_dial");
+	if (p->i("wshdr", 0) && tr == TR_WS) {
+		// a websocket dialer with request headers of its own, dialed synchronously;
+		// when the dial fails the dialer is closed at once and another one made
+		for (int attempt = 0;; attempt++) {
+			if (attempt > 4)
+				VIOL("stuck_after_enomem", "a websocket dial keeps failing after a single allocation failure");
+			if (chk(nng_dialer_create(&d, a, durl.c_str()), "nng_dialer_create") != 0)
+				continue;
+			int hrv = chk(nng_dialer_set_string(d, NNG_OPT_WS_HEADER "X-Verif-One", "alpha"), "nng_dialer_set_string");
+			if (hrv == 0)
+				hrv = chk(nng_dialer_set_string(d, NNG_OPT_WS_HEADER "X-Verif-Two", "beta"), "nng_dialer_set_string");
+			int drv = hrv;
+			if (hrv == 0) {
+				drv = nng_dialer_start(d, 0);
+				sim_event("nng_dialer_start -> %d", drv);
+				if (drv != 0 && sim_alloc_fault_hit() == 0)
+					h_fatal("nng_dialer_start failed with %d (%s) without any injected fault", drv, nng_strerror((nng_err) drv));
+				// the failed allocation may have been the listening side's: then the
+				// dial ends the way it does when a peer drops the connection
+				if (drv != 0 && drv != NNG_ENOMEM && drv != NNG_ETIMEDOUT && drv != NNG_ECONNSHUT && drv != NNG_ECONNRESET &&
+				    drv != NNG_ECONNREFUSED && drv != NNG_EPROTO && drv != NNG_ECLOSED)
+					VIOL("unclean_error", "nng_dialer_start returned %d (%s) after an allocation failure", drv,
+					    nng_strerror((nng_err) drv));
+			}
+			if (drv == 0)
+				break;
+			int crv;
+			{
+				Bounded g("C20", "hang", 10000000000ull, "nng_dialer_close right after a websocket dial failed with %d", drv);
+				crv = nng_dialer_close(d);
+			}
+			if (crv != 0)
+				VIOL("unclean_error", "nng_dialer_close returned %d", crv);
+		}
+	} else {
+		RETRY(nng_dial(a, url.c_str(), &d, NNG_FLAG_NONBLOCK), "nng_dial");
+	}
 	sim_quiesce(3000000);
 	for (uint32_t i = 0; i < 2; i++)
 		exchange(pr, a, b, i);
